@@ -1,7 +1,7 @@
 #!/bin/bash
 # validates MANIFEST.json and every evidence file against the schemas; prints problems only
 python3-vt - <<'PY'
-import json,jsonschema,glob,sys
+import json,jsonschema,glob,sys,os
 ok=True
 try: jsonschema.validate(json.load(open('/verif/MANIFEST.json')),json.load(open('/root/.vp/MANIFEST.schema.json')))
 except Exception as e: ok=False; print('MANIFEST INVALID',str(e)[:300])
@@ -12,6 +12,7 @@ for c in m['checks']:
     try:
         ev=json.load(open(f)); jsonschema.validate(ev,s)
         cov=ev['coverage']
+        if os.path.getsize(f)>500_000: ok=False; print(f,'TOO LARGE',os.path.getsize(f),'bytes (runner.write_evidence clips at 400 kB)')
         if ev.get('violations',0)!=0 or cov.get('discharged')!=cov.get('obligations'): ok=False; print(f,'NOT FROM A CLEAN RUN: violations',ev.get('violations'),'discharged',cov.get('discharged'),'/',cov.get('obligations'))
     except Exception as e: ok=False; print(f,'INVALID',str(e)[:200])
 print('validate:', 'ok' if ok else 'PROBLEMS')
